@@ -266,7 +266,7 @@ Definition conflicts (f : tstate) (k : path) : bool :=
 Fixpoint pf_keys (f : tstate) (ks : list path) : bool :=
   match ks with
   | [] => true
-  | k :: ks' => negb (conflicts f k) && pf_keys ((k, TVBool true) :: f) ks'
+  | k :: ks' => negb (conflicts f k) && pf_keys ((k, (0, TVBool true)) :: f) ks'
   end.
 
 Fixpoint prefix_free_from (f : tstate) (s : list item) : bool :=
@@ -276,7 +276,7 @@ Fixpoint prefix_free_from (f : tstate) (s : list item) : bool :=
   end.
 
 Definition hyp_stream (s : list item) : bool :=
-  ts_increasing None s && decodable s && prefix_free_from [] s
+  decodable s && prefix_free_from [] s
   && forallb (fun it => negb (String.eqb (item_prefix_origin it) meta_root)) s
   && forallb (fun it => forallb (fun k => forallb (fun e => negb (is_glob e)) k) (upd_keys it)) s.
 
